@@ -218,6 +218,20 @@ func (s *ctxSys) Apply(op sxOp) string {
 			return fmt.Sprintf("architectural value of %v is %d after %s, want %d (uncommitted writes before: see history)", r, got, op, s.arch[r])
 		}
 	}
+	// complete observable state on every edge (reads are pure): the search prunes
+	// on the model's canonical state, so a silent divergence must not survive
+	if op.Name != "Read" && op.Name != "PlainRead" {
+		for ri := range s.regs {
+			if m := s.Apply(sxOp{"PlainRead", []int{ri}}); m != "" {
+				return "after " + op.String() + ": " + m
+			}
+			for ti := range s.tags {
+				if m := s.Apply(sxOp{"Read", []int{ri, ti}}); m != "" {
+					return "after " + op.String() + ": " + m
+				}
+			}
+		}
+	}
 	return ""
 }
 
@@ -349,6 +363,24 @@ func (s *ratSys) Apply(op sxOp) string {
 			v, ok := got[k]
 			if ok != wok || (ok && v != want) {
 				return fmt.Sprintf("FindValues(tag<%d)[%d]=(%v,%v), want (%v,%v): writes %v (never-written slots must not match)", b, k, v, ok, want, wok, w)
+			}
+		}
+	}
+	// complete observable behaviour on every edge
+	if op.Name == "Write" {
+		for k := 0; k < 2; k++ {
+			if m := s.Apply(sxOp{"Read", []int{k}}); m != "" {
+				return "after " + op.String() + ": " + m
+			}
+			for _, b := range []int{1, 2, 3} {
+				if m := s.Apply(sxOp{"FindTagAtMost", []int{k, b}}); m != "" {
+					return "after " + op.String() + ": " + m
+				}
+			}
+		}
+		for _, b := range []int{1, 2, 3, 4} {
+			if m := s.Apply(sxOp{"FindValuesTagBelow", []int{b}}); m != "" {
+				return "after " + op.String() + ": " + m
 			}
 		}
 	}
